@@ -216,10 +216,11 @@ class StreamingHandler(AsyncCallbackHandler, AsyncIterator):
                 self.current_chunk = self.current_chunk[len(self.prefix) :]
                 self.prefix = None
 
-                # If we're left with something, we "forward it".
+                # If we're left with something, we "forward it" through the regular
+                # suffix/stop logic (the prefix is cleared now).
                 if self.current_chunk:
-                    await self._process(self.current_chunk)
-                    self.current_chunk = ""
+                    rest, self.current_chunk = self.current_chunk, ""
+                    await self.push_chunk(rest)
         elif self.suffix or self.stop:
             # If we have a suffix, we always check that the total current chunk does not end
             # with the suffix.
